@@ -156,3 +156,11 @@ impl Rng {
         &xs[self.below(xs.len() as u64) as usize]
     }
 }
+
+pub fn reset_last_panic() {
+    LAST_PANIC.with(|p| *p.borrow_mut() = None);
+}
+
+pub fn last_panic() -> Option<(String, String)> {
+    LAST_PANIC.with(|p| p.borrow_mut().take())
+}
